@@ -1,0 +1,283 @@
+//! Verification hooks. Only compiled with `--cfg meshless_voro_verif`.
+//!
+//! Thin public wrappers around crate-internal functionality, so that an
+//! external harness can drive it. Nothing in here changes the behaviour of the
+//! library; with the cfg flag off this module does not exist.
+
+use std::cell::Cell;
+use std::sync::atomic::{AtomicU64, Ordering};
+
+use glam::DVec3;
+
+pub use super::convex_cell::{WithFaces, WithoutFaces};
+pub use super::Generator;
+use super::{boundary::SimulationBoundary, convex_cell::ConvexCell, half_space::HalfSpace, Dimensionality};
+use crate::bounding_sphere::{BoundingSphereSolver, Epos6, Welzl};
+use crate::geometry::{in_sphere_test_exact, Sphere};
+use crate::rtree_nn::{build_rtree, nn_iter, wrapping_nn_iter};
+use crate::simple_cycle::SimpleCycle;
+use crate::space::Space;
+
+thread_local! {
+    static EXACT_TESTS: Cell<u64> = const { Cell::new(0) };
+}
+static EXACT_TESTS_GLOBAL: AtomicU64 = AtomicU64::new(0);
+static JITTER_SEED: AtomicU64 = AtomicU64::new(0);
+
+/// Called by `clip_by_plane` each time the exact predicate is needed.
+#[inline]
+pub(crate) fn count_exact_test() {
+    EXACT_TESTS.with(|c| c.set(c.get() + 1));
+    EXACT_TESTS_GLOBAL.fetch_add(1, Ordering::Relaxed);
+}
+
+/// Number of exact predicate evaluations on this thread since the last reset.
+pub fn exact_test_count() -> u64 {
+    EXACT_TESTS.with(|c| c.get())
+}
+
+/// Number of exact predicate evaluations on all threads since the last reset.
+pub fn exact_test_count_global() -> u64 {
+    EXACT_TESTS_GLOBAL.load(Ordering::Relaxed)
+}
+
+pub fn reset_exact_test_count() {
+    EXACT_TESTS.with(|c| c.set(0));
+    EXACT_TESTS_GLOBAL.store(0, Ordering::Relaxed);
+}
+
+/// Set a seed != 0 to make every per-cell task spin for a pseudo random
+/// (seed, idx)-dependent time before it starts; diversifies completion order.
+pub fn set_jitter_seed(seed: u64) {
+    JITTER_SEED.store(seed, Ordering::Relaxed);
+}
+
+/// Called at the start of every per-cell task of the parallel loops.
+#[inline]
+pub(crate) fn jitter(idx: usize) {
+    let seed = JITTER_SEED.load(Ordering::Relaxed);
+    if seed == 0 {
+        return;
+    }
+    let mut x = seed ^ (idx as u64).wrapping_mul(0x9E3779B97F4A7C15);
+    x ^= x >> 33;
+    x = x.wrapping_mul(0xff51afd7ed558ccd);
+    x ^= x >> 33;
+    let spins = x % 4000;
+    for _ in 0..spins {
+        std::hint::spin_loop();
+    }
+    if x % 7 == 0 {
+        std::thread::yield_now();
+    }
+}
+
+/// `in_sphere_test_exact` of the enabled big integer backend.
+pub fn in_sphere_exact(a: &[i64; 3], b: &[i64; 3], c: &[i64; 3], d: &[i64; 3], v: &[i64; 3]) -> f64 {
+    in_sphere_test_exact(a, b, c, d, v)
+}
+
+/// Name of the big integer backend this build uses.
+pub fn backend_name() -> &'static str {
+    if cfg!(feature = "ibig") {
+        "ibig"
+    } else if cfg!(feature = "dashu") {
+        "dashu"
+    } else if cfg!(feature = "malachite") {
+        "malachite"
+    } else if cfg!(feature = "num_bigint") {
+        "num_bigint"
+    } else if cfg!(feature = "rug") {
+        "rug"
+    } else {
+        "none"
+    }
+}
+
+/// Opaque handle to a `SimulationBoundary`.
+#[derive(Clone)]
+pub struct Boundary(SimulationBoundary);
+
+impl Boundary {
+    pub fn cuboid(anchor: DVec3, width: DVec3, periodic: bool, dimensionality: Dimensionality) -> Self {
+        Boundary(SimulationBoundary::cuboid(anchor, width, periodic, dimensionality))
+    }
+
+    /// The rescaled position (should be in `[1, 2)`) that `iloc` takes the
+    /// mantissa of. Recomputed with the same expression as `iloc`.
+    pub fn rescaled(&self, loc: DVec3) -> DVec3 {
+        DVec3::splat(1.) + (loc - self.0.anchor_for_hooks()) * self.0.inverse_width_for_hooks()
+    }
+
+    /// `iloc`, or `Err(rescaled)` when the rescaled position leaves `[1, 2)`
+    /// (where `iloc` would panic in debug builds and wrap in release builds).
+    pub fn iloc_checked(&self, loc: DVec3) -> Result<[i64; 3], DVec3> {
+        let r = self.rescaled(loc);
+        let ok = |x: f64| x >= 1. && x < 2.;
+        if ok(r.x) && ok(r.y) && ok(r.z) {
+            Ok(self.0.iloc(loc))
+        } else {
+            Err(r)
+        }
+    }
+
+    pub fn iloc(&self, loc: DVec3) -> [i64; 3] {
+        self.0.iloc(loc)
+    }
+
+    pub fn clipping_planes(&self) -> &[HalfSpace] {
+        &self.0.clipping_planes
+    }
+}
+
+/// Project generator positions the way the builders do.
+pub fn make_generators(locs: &[DVec3], dimensionality: Dimensionality) -> Vec<Generator> {
+    locs.iter().enumerate().map(|(id, &loc)| Generator::new(id, loc, dimensionality)).collect()
+}
+
+/// `ConvexCell::init`
+pub fn cell_init(loc: DVec3, idx: usize, boundary: &Boundary) -> ConvexCell<WithoutFaces> {
+    ConvexCell::init(loc, idx, &boundary.0)
+}
+
+/// `ConvexCell::clip_by_plane`
+pub fn cell_clip(
+    cell: &mut ConvexCell<WithoutFaces>,
+    half_space: HalfSpace,
+    generators: &[Generator],
+    boundary: &Boundary,
+) {
+    cell.clip_by_plane(half_space, generators, &boundary.0)
+}
+
+/// `ConvexCell::build` over an explicit candidate sequence.
+pub fn cell_build_with(
+    loc: DVec3,
+    idx: usize,
+    generators: &[Generator],
+    candidates: Vec<(usize, Option<DVec3>)>,
+    boundary: &Boundary,
+) -> ConvexCell<WithoutFaces> {
+    ConvexCell::build(loc, idx, generators, Box::new(candidates.into_iter()), &boundary.0)
+}
+
+/// The half space `ConvexCell::build` constructs for a neighbour at
+/// `generators[idx] + shift` of a cell with generator at `loc`.
+pub fn bisector(loc: DVec3, ngb_loc: DVec3, idx: usize, shift: Option<DVec3>) -> HalfSpace {
+    let dx = loc - ngb_loc;
+    let dist = dx.length();
+    let n = dx / dist;
+    let p = 0.5 * (loc + ngb_loc);
+    HalfSpace::new(n, p, Some(idx), shift)
+}
+
+/// The complete candidate sequence visited for the generator `query_idx`:
+/// `(id, shift, key)` where key is the squared distance the iterator sorted by
+/// (only available for the wrapping iterator, NaN otherwise).
+pub fn nn_visit(
+    locs: &[DVec3],
+    query_idx: usize,
+    width: DVec3,
+    dimensionality: Dimensionality,
+    periodic: bool,
+    limit: usize,
+) -> Vec<(usize, Option<DVec3>)> {
+    let generators = make_generators(locs, dimensionality);
+    let rtree = build_rtree(&generators);
+    let loc = generators[query_idx].loc();
+    let it = if periodic {
+        wrapping_nn_iter(&rtree, loc, width, dimensionality)
+    } else {
+        nn_iter(&rtree, loc)
+    };
+    it.take(limit).collect()
+}
+
+/// One node of the r-tree in preorder.
+pub struct RTreeDumpNode {
+    pub depth: usize,
+    /// `Some(id)` for a leaf
+    pub leaf: Option<usize>,
+    pub n_children: usize,
+    pub lower: [f64; 3],
+    pub upper: [f64; 3],
+}
+
+/// Preorder dump of the r-tree the builders use for `locs`.
+pub fn rtree_dump(locs: &[DVec3], dimensionality: Dimensionality) -> Vec<RTreeDumpNode> {
+    use rstar::{ParentNode, RTreeNode, RTreeObject};
+    fn rec(node: &ParentNode<Generator>, depth: usize, out: &mut Vec<RTreeDumpNode>) {
+        let env = node.envelope();
+        out.push(RTreeDumpNode {
+            depth,
+            leaf: None,
+            n_children: node.children().len(),
+            lower: env.lower(),
+            upper: env.upper(),
+        });
+        for child in node.children() {
+            match child {
+                RTreeNode::Parent(p) => rec(p, depth + 1, out),
+                RTreeNode::Leaf(g) => {
+                    let env = g.envelope();
+                    out.push(RTreeDumpNode {
+                        depth: depth + 1,
+                        leaf: Some(g.id()),
+                        n_children: 0,
+                        lower: env.lower(),
+                        upper: env.upper(),
+                    })
+                }
+            }
+        }
+    }
+    let generators = make_generators(locs, dimensionality);
+    let rtree = build_rtree(&generators);
+    let mut out = vec![];
+    rec(rtree.root(), 0, &mut out);
+    out
+}
+
+/// Handle to a `SimpleCycle`.
+pub struct Cycle(SimpleCycle);
+
+impl Cycle {
+    pub fn new(capacity: usize) -> Self {
+        Cycle(SimpleCycle::new(capacity))
+    }
+    pub fn grow(&mut self) {
+        self.0.grow()
+    }
+    pub fn init(&mut self, a: usize, b: usize, c: usize) {
+        self.0.init(a, b, c)
+    }
+    pub fn try_extend(&mut self, a: usize, b: usize, c: usize) -> bool {
+        self.0.try_extend(a, b, c).is_ok()
+    }
+    pub fn len(&self) -> usize {
+        self.0.len
+    }
+    /// `iter().take(len + 1)` as used by `clip_by_plane`
+    pub fn walk(&self) -> Vec<usize> {
+        self.0.iter().take(self.0.len + 1).collect()
+    }
+}
+
+/// `Space::new` + `add_parts` + `knn`
+pub fn space_knn(anchor: DVec3, width: DVec3, max_cell_width: f64, points: &[DVec3], k: usize) -> Vec<Vec<usize>> {
+    let mut space = Space::new(anchor, width, max_cell_width);
+    space.add_parts(points);
+    space.knn(k)
+}
+
+pub fn welzl(points: &[DVec3]) -> Sphere {
+    Welzl::bounding_sphere(points)
+}
+
+pub fn epos6(points: &[DVec3]) -> Sphere {
+    Epos6::bounding_sphere(points)
+}
+
+pub fn epos6_spheres(spheres: &[Sphere]) -> Sphere {
+    Epos6::bounding_sphere_of_spheres(spheres)
+}
